@@ -246,6 +246,9 @@ func (vc *VC) zeroInit(st *State, r string, T types.Type) {
 			ft := s.Field(i).Type()
 			if _, ok := isStruct(ft); ok {
 				vc.zeroInit(st, vc.embTerm(T, i, r), ft)
+			} else if a, ok := ft.Underlying().(*types.Array); ok {
+				hn, hs := vc.d.elemHeap(a.Elem())
+				vc.assume(fmt.Sprintf("(= (select %s %s) %s)", vc.heap(st, hn, hs), vc.embTerm(T, i, r), vc.d.zero(ft)))
 			} else {
 				hn, hs := vc.d.fieldHeap(T, i)
 				vc.assume(fmt.Sprintf("(= (select %s %s) %s)", vc.heap(st, hn, hs), r, vc.d.zero(ft)))
